@@ -70,11 +70,14 @@ def diskQuery (s : Disk) (probes : List Nat) : String :=
 
 def diskDump (s : Disk) : String :=
   let segs := s.segs.map (fun g =>
-    s!"{g.left}:{g.data.length}:{if g.live then "-1" else toString g.data.length}:{segRef s.readers g}")
+      s!"{g.left}:{g.data.length}:{g.data.length}:{readerRefs s.readers g.left}") ++
+    (match s.live with
+     | some g => [s!"{g.left}:{g.data.length}:-1:{readerRefs s.readers g.left + 1}"]
+     | none => [])
   let rdb := match s.rdb with
     | some r => s!"{r.left}:{r.size}:{rdbRef s.readers r}"
     | none => "-"
-  let files := s.segs.map (fun g => s!"{g.left}.aof:{16 + g.data.length}") ++
+  let files := s.all.map (fun g => s!"{g.left}.aof:{16 + g.data.length}") ++
     (match s.rdb with
      | some r => [s!"{r.left}_{r.size}.rdb{if r.final then "" else ".tmp"}:{r.data.length}"]
      | none => [])
